@@ -3,12 +3,19 @@ PROPS["C08"] = dict(
     technique="model-based PBT (rapid) against a reference LRU with a create/delete callback ledger + "
               "bounded-exhaustive call sequences",
     rule="case = (shape in {Cache[string,int], ECache[[]string,string,int] with inner key = lower-cased join so that 3 distinct PKs "
-         "collide per key, ExpirableCache[string,*item] whose expiry flag is owned by the harness}, capacity, key alphabet size, "
-         "nil-or-not delete callback, op list over GetOrCreate(key, PK variant, create outcome ok|error, expirable only: Born = 0 or a run of 1..4) / Remove(key, PK variant) / "
+         "collide per key, ExpirableCache[string,*item] whose expiry flag is owned by the harness, Cache[string,any] (shape iface: the value type is an INTERFACE type and a successful "
+         "creation hands over, as its op says, a non-nil pointer, the nil interface value - create returns (nil, nil) - or a typed nil pointer)}, capacity, key alphabet size, "
+         "nil-or-not delete callback, op list over GetOrCreate(key, PK variant, create outcome ok|error, expirable only: Born = 0 or a run of 1..4, iface only: kind of the created value) / Remove(key, PK variant) / "
          "Clear / mark-a-resident-item-expired (expirable only)) followed by a fixed epilogue (capacity insertions of fresh keys, "
          "each of which must evict the then least recently used entry, then a final Clear and the created/deleted ledger balance). "
+         "Capacities: 1-8 and 64, and - one rapid case in eleven (a third of them ending with a Clear, a quarter without delete callback) plus three exhaustive cells - a capacity from {math.MaxInt, math.MaxInt-1, 2^40, 2^31, 2^16}, "
+         "the spellings of 'unbounded': no case can fill such a cache, so the reference never evicts, hits/Remove/Clear/callbacks are as for any capacity, and the epilogue makes 4 insertions (none may evict) instead of capacity many; "
+         "nothing in the harness allocates, loops or adds by capacity. Interface-typed values (shape iface): for the cache a value is a value - a creation that succeeds with a nil value is inserted, returned by later hits "
+         "without a create call (same kind of nil), counted by Remove/Clear, evicted in its turn and passed to the delete callback exactly once with that nil value (a nil value carries no id: the callback's "
+         "(key, nil) is charged to the latest nil creation for the key, of which at most one is resident); two rapid creations in five are nil (nil interface : typed nil pointer = 3 : 1), "
+         "the exhaustive alphabet of the iface cells has both per key. "
          "Exhaustive over the full alphabet for the cells listed in exhaustive_parts (2 keys x capacity 1-2 for every shape, 3-4 keys x "
-         "capacity 2-3 for Cache) to the depth given there plus the constructor refusals (maxSize<1, nil create function); rapid lists "
+         "capacity 2-3 for Cache, 2 keys x capacity 1-2 and MaxInt for iface, 2 keys x capacity MaxInt / MaxInt-1 for Cache) to the depth given there plus the constructor refusals (maxSize<1 down to math.MinInt, nil create function also with maxSize MaxInt); rapid lists "
          "of up to 80 (thorough 160) calls, 2-6 keys for capacities 1-4, longer lists for capacities 5-8 and 64. "
          "non-trivial = an eviction took an entry that was not the oldest-created resident (a hit changed which entry is evicted "
          "later), or a failed creation happened between two hits, or a successful insertion followed a Clear that removed something; "
@@ -21,7 +28,10 @@ PROPS["C08"] = dict(
          "GetOrCreate finds it stale and replaces it once again. A failing create outcome applies to every create call of the op (so a born-expired item is never followed by a failed replacement). "
          "Excluded: the residency of a stale item after a failed re-creation (not determined by the "
          "documentation; followed, not asserted); concurrency (C09). GetOrCreate may carry a re-entrant create function: a nested program of at most 2 calls (GetOrCreate, Remove, rarely Clear; at most 2 levels deep) on other keys of the same cache, run by the create function before its own outcome (never on a key in flight: the single-flight table would make the call wait for itself); reference: the nested calls are ordinary calls at that moment, then the outer value is inserted as most recently used with eviction of the then least recently used entry. The ecache shape also covers reference-like PKs whose memory the caller recycles: the harness keeps two reusable []string key buffers and, in half of the ecache cases, makes two thirds of its GetOrCreate/Remove calls (also nested ones) through a buffer after overwriting its content with the call's key text, so PKs stored by earlier calls are mutated behind the cache; residency, hits, eviction order and capacity must follow the inner key as computed at call time.",
-    assumptions=["reference LRU written from the C08 statement and the comments of ecache.go / expirable.go; residency is probed only "
+    assumptions=["a creation that returns (nil value, nil error) is a successful creation in the sense of the statement ('a miss calls the create function once and, on success, inserts the value'): CreatePoolElemF is "
+                 "func(K) (V, error), the code and the comments decide on the error alone and say nothing that would single out a value; the same for the delete callback ('for every entry that leaves the cache')",
+                 "every maxSize >= 1 is a legal capacity (NewECache refuses only maxSize < 1); math.MaxInt is how callers spell 'no limit'",
+                 "reference LRU written from the C08 statement and the comments of ecache.go / expirable.go; residency is probed only "
                  "through return values, create-call counts and delete callbacks",
                  "ECache: the PK handed to the delete callback is the one stored at creation, a hit through another PK with the same inner "
                  "key returns the stored value without calling create (ecache.go stores pair{pk,v})",
@@ -42,7 +52,7 @@ PROPS["C08"] = dict(
 LEVEL_TEXT["C08"] = (
     "Generated-input search with an exact oracle: every call sequence over the complete op alphabet (keys x create outcome x PK "
     "variant x born-expired run, Remove, Clear, expire) up to the depth bound for the small cells listed in the evidence, plus hundreds of thousands of "
-    "random sequences for capacities 1-8 and 64 on all three cache shapes, are compared call by call (return value, error identity, "
+    "random sequences for capacities 1-8, 64 and 'unbounded' (up to math.MaxInt) on all four cache shapes - one of them with an interface-typed value and creations that return nil -, are compared call by call (return value, error identity, "
     "create calls and their argument, exact delete callbacks) with a reference LRU, the recency order is read back through "
     "evictions at the end of every case and the created/deleted ledger is balanced after a final Clear. No counterexample among the "
     "cases counted in the evidence; not a proof for longer sequences or larger key sets."
